@@ -241,7 +241,10 @@ pub fn take_panic() -> String {
 pub fn panic_sig(info: &str) -> String {
     // file:line without the message; library paths only
     let loc = info.split(": ").next().unwrap_or("");
-    let short = loc.rsplit("/repo/").next().unwrap_or(loc);
+    let short = loc
+        .rsplit(concat!(env!("QSIM_REPO_DIR"), "/"))
+        .next()
+        .unwrap_or(loc);
     format!("panic/{short}")
 }
 
